@@ -1188,6 +1188,13 @@ SEASON_SEEDS = [
     'x: !!int abc\n', 'x: 0x_\n', 'x: 1\nf: !!float ""\n',
     'x: !!bool maybe\n', 'x: !!int ""\n', 'x: 1\nf: !!float x.y\n',
     '[1]\n', '~\n', '- ~\n- 1\n- a\n',
+    # keys that look like format fields, at class positions
+    'x{0}: 1\n', '"{}": 1\nx: 2\n', '${a}: 3\nx: 1\n', 'x: 1\ny{z}: 2\n',
+    '{"{x}": 1, y: 2}\n', 'a{: 1\n', 'a}: 1\n', '"{0.__class__}": 1\n',
+    'items: {"{id}": {price: 1}}\n', '- x: 1\n  "{}": 2\n',
+    # paths with a tilde
+    '~nosuchuser12345/x\n', '"~~"\n', '"~ghost_xyz"\n', '~/x\n',
+    'p: ~nosuchuser12345/run1\nd: 2020-01-02\n',
 ]
 
 
@@ -1213,6 +1220,8 @@ def c08_fuzz(V, tier):
                 'season', 'index', 'readval'):
         dts = ctx['models'][mid]['doctypes']
         combos += [(mid, dt) for dt in dts[:3]]
+    combos += [('scalars', ['path']), ('pathdate', ['class', 'Pd']),
+               ('scalars', ['list', ['path']])]
     chunks = [(c, combos) for c in chunked(texts, NCPU * 2)]
     parts = common.fork_map(_fuzz_chunk, chunks)
     total = 0
